@@ -1,4 +1,8 @@
+mod abs;
+mod cast;
 mod fam_c08;
+mod fam_sys;
+mod scen;
 mod fam_c13;
 mod fam_c16;
 mod fam_c20;
@@ -47,6 +51,14 @@ pub fn eval(case: &Value, ctx: &mut Ctx) -> Value {
     }
 }
 
+type SysFam = fn(&mut scen::Engine, &mut rng::Rng, bool, &mut out::Out) -> fam_sys::Cases;
+fn sys_family(name: &str) -> Option<SysFam> {
+    match name {
+        "c04" => Some(fam_sys::c04),
+        _ => None,
+    }
+}
+
 fn main() {
     let args: Vec<String> = std::env::args().collect();
     let fam = args.get(1).cloned().unwrap_or_default();
@@ -78,6 +90,7 @@ fn main() {
         "c13" => fam_c13::gen(&mut rng, thorough, &mut ctx.out),
         "c16" => fam_c16::gen(&mut rng, thorough, &mut ctx.out),
         "c20" => fam_c20::gen(&mut rng, thorough, &mut ctx.out),
+        other if sys_family(other).is_some() => vec![],
         other => {
             eprintln!("unknown family {other}");
             std::process::exit(2);
@@ -86,6 +99,15 @@ fn main() {
     for case in cases {
         let imp = eval(&case, &mut ctx);
         ctx.out.write_case(case, imp);
+    }
+    // system-level scenario families: cases come with the implementation outcome (real crypto, stateful engine)
+    if let Some(f) = sys_family(&fam) {
+        let w = ctx.world();
+        let mut eng = scen::Engine::new(cast::Cast::new(w));
+        let done = f(&mut eng, &mut rng, thorough, &mut ctx.out);
+        for (case, imp) in done {
+            ctx.out.write_case(case, imp);
+        }
     }
     let mut summary = ctx.out.finish();
     summary["family"] = json!(fam);
